@@ -11,23 +11,34 @@ def parseFile (s : String) : Option File :=
 
 def fmtSide (o : Option File) : String := match o with | some f => s!"{f.hash}.{f.mode}" | none => "-"
 
-partial def loop (h : IO.FS.Stream) (cfg : Cfg) (s : St) : IO Unit := do
+/-- per-branch item state: `fork` copies the state of the source branch (TreeDiff forks by copy) -/
+abbrev Brs := List (Nat × St)
+def getBr (bs : Brs) (b : Nat) : St := ((bs.find? (·.1 = b)).map (·.2)).getD ⟨none, none⟩
+def setBr (bs : Brs) (b : Nat) (s : St) : Brs := (b, s) :: bs.filter (·.1 ≠ b)
+
+partial def loop (h : IO.FS.Stream) (cfg : Cfg) (bs : Brs) : IO Unit := do
   let line ← h.getLine
   if line.isEmpty then return ()
-  match (line.trim.splitOn " ").filter (· ≠ "") with
-  | ["cfg", skip, rx, rxe] =>
-    loop h ⟨if skip = "-" then [] else skip.splitOn ",", rx = "1", rxe = "1"⟩ ⟨none, none⟩
-  | ["commit", c, ps, fs] =>
+  let commit := fun (b : Nat) (c ps fs : String) => do
     let parents := if ps = "-" then [] else (ps.splitOn ",").filterMap (·.toNat?)
     let tree := if fs = "-" then [] else (fs.splitOn ";").filterMap parseFile
-    match consume cfg s c.toNat! parents tree with
-    | .error e => IO.println s!"err {e}"; loop h cfg s
+    match consume cfg (getBr bs b) c.toNat! parents tree with
+    | .error e => IO.println s!"err {e}"; loop h cfg bs
     | .ok (s', chs) =>
       let strs := (chs.map fun c => s!"{c.name}:{fmtSide c.src}>{fmtSide c.dst}").mergeSort (fun a b => a ≤ b)
       IO.println (" ".intercalate strs)
-      loop h cfg s'
-  | _ => IO.println "bad-op"; loop h cfg s
+      loop h cfg (setBr bs b s')
+  match (line.trim.splitOn " ").filter (· ≠ "") with
+  | ["cfg", skip, rx, rxe] =>
+    loop h ⟨if skip = "-" then [] else skip.splitOn ",", rx = "1", rxe = "1"⟩ []
+  | ["commit", c, ps, fs] => commit 0 c ps fs
+  | ["bcommit", b, c, ps, fs] => commit b.toNat! c ps fs
+  | ["fork", src, dsts] =>
+    let st := getBr bs src.toNat!
+    IO.println "ok"
+    loop h cfg (((dsts.splitOn ",").filterMap (·.toNat?)).foldl (fun acc d => setBr acc d st) bs)
+  | _ => IO.println "bad-op"; loop h cfg bs
 
-def main : IO Unit := do loop (← IO.getStdin) ⟨[], false, false⟩ ⟨none, none⟩
+def main : IO Unit := do loop (← IO.getStdin) ⟨[], false, false⟩ []
 
 end TdDrv
